@@ -473,7 +473,114 @@ def facts_conn():
     return out
 
 
-SECTIONS = [("stream", facts_stream), ("control", facts_control), ("packets", facts_packets), ("conn", facts_conn)]
+# ----------------------------------------------------------------------------- shared mutable state audit (C08)
+MUTATORS = {"append", "update", "setdefault", "pop", "clear", "extend", "add", "insert", "remove", "popitem",
+            "__setitem__", "discard", "sort", "reverse", "appendleft", "__delitem__"}
+MUTABLE_CALLS = {"dict", "list", "set", "defaultdict", "bytearray", "OrderedDict", "deque", "Counter"}
+
+
+def _is_mutable_value(v):
+    if isinstance(v, (ast.Dict, ast.List, ast.Set, ast.ListComp, ast.DictComp, ast.SetComp)):
+        return True
+    if isinstance(v, ast.Call) and call_name(v).split(".")[-1] in MUTABLE_CALLS:
+        return True
+    return False
+
+
+def facts_shared():
+    """every module-level / class-level binding of a mutable container, and every place that writes to one"""
+    import glob as _glob
+    out = []
+    shared = []      # "module.name" / "module.Class.name"
+    writes = []
+    caches = []
+    mods = sorted(_glob.glob(os.path.join(SRC, "*.py")))
+    trees = {}
+    for path in mods:
+        mod = os.path.basename(path)[:-3]
+        with open(path) as f:
+            tree = ast.parse(f.read())
+        trees[mod] = tree
+        for n in tree.body:
+            if isinstance(n, (ast.Assign, ast.AnnAssign)):
+                tg = n.targets[0] if isinstance(n, ast.Assign) else n.target
+                if isinstance(tg, ast.Name) and n.value is not None and _is_mutable_value(n.value):
+                    shared.append(f"{mod}.{tg.id}")
+            if isinstance(n, ast.ClassDef):
+                for c in n.body:
+                    if isinstance(c, (ast.Assign, ast.AnnAssign)):
+                        tg = c.targets[0] if isinstance(c, ast.Assign) else c.target
+                        if isinstance(tg, ast.Name) and c.value is not None and _is_mutable_value(c.value):
+                            shared.append(f"{mod}.{n.name}.{tg.id}")
+            if isinstance(n, (ast.FunctionDef, ast.AsyncFunctionDef)):
+                for d in n.decorator_list:
+                    if "lru_cache" in ast.unparse(d) or "cache" == ast.unparse(d):
+                        caches.append(f"{mod}.{n.name}")
+    names = {s.split(".")[-1]: s for s in shared}
+    for mod, tree in trees.items():
+        for fn in [x for x in ast.walk(tree) if isinstance(x, (ast.FunctionDef, ast.AsyncFunctionDef))]:
+            local = {a.arg for a in fn.args.args + fn.args.kwonlyargs}
+            for x in ast.walk(fn):
+                if isinstance(x, ast.Assign):
+                    for t in x.targets:
+                        if isinstance(t, ast.Name):
+                            local.add(t.id)
+            def base_name(e):
+                while isinstance(e, (ast.Subscript, ast.Attribute)) and not (isinstance(e, ast.Attribute) and isinstance(e.value, ast.Name) and e.value.id in ("self", "cls")):
+                    e = e.value
+                if isinstance(e, ast.Name):
+                    return e.id
+                if isinstance(e, ast.Attribute):
+                    return e.attr
+                return None
+            for x in ast.walk(fn):
+                tgt = None
+                if isinstance(x, (ast.Assign, ast.AugAssign, ast.Delete)):
+                    ts = x.targets if isinstance(x, (ast.Assign, ast.Delete)) else [x.target]
+                    for t in ts:
+                        if isinstance(t, ast.Subscript):
+                            tgt = base_name(t.value)
+                        elif isinstance(x, ast.AugAssign) and isinstance(t, ast.Name) and t.id in names and t.id not in local:
+                            tgt = t.id
+                        if tgt and tgt in names and tgt not in local:
+                            writes.append(f"{mod}.{fn.name}:{names[tgt]}")
+                if isinstance(x, ast.Global):
+                    for g in x.names:
+                        writes.append(f"{mod}.{fn.name}:global {g}")
+                if isinstance(x, ast.Call) and isinstance(x.func, ast.Attribute) and x.func.attr in MUTATORS:
+                    b = base_name(x.func.value)
+                    if b and b in names and b not in local:
+                        # a class-level name reached through self.<name> counts only if the instance never rebinds it
+                        writes.append(f"{mod}.{fn.name}:{names[b]}")
+    # instance attributes assigned in __init__ shadow class-level names: drop writes to names rebound in any __init__
+    rebound = set()
+    for mod, tree in trees.items():
+        for fn in [x for x in ast.walk(tree) if isinstance(x, ast.FunctionDef) and x.name == "__init__"]:
+            for x in ast.walk(fn):
+                if isinstance(x, (ast.Assign, ast.AnnAssign)):
+                    t = x.targets[0] if isinstance(x, ast.Assign) else x.target
+                    if isinstance(t, ast.Attribute) and isinstance(t.value, ast.Name) and t.value.id == "self":
+                        rebound.add(t.attr)
+    writes = sorted({w for w in writes if w.split(".")[-1] not in rebound or w.split(":")[1].count(".") == 1})
+    out.append("Definition shared_mutable_bindings : list string := " + "[" + "; ".join(coq_string(x) for x in sorted(shared)) + "]%string.")
+    out.append("Definition shared_writes : list string := " + "[" + "; ".join(coq_string(x) for x in writes) + "]%string.")
+    out.append("Definition shared_memo_caches : list string := " + "[" + "; ".join(coq_string(x) for x in sorted(caches)) + "]%string.")
+    # per-connection objects are created per accepted socket
+    sv = trees["server"]
+    cb = body_text(find_func(find_class(sv, "MysqlServer"), "_client_connected_cb"))
+    per_conn = all(k in cb for k in ["stream = MysqlStream(reader, writer)", "session = self.session_factory()", "connection = Connection("])
+    out.append(f"Definition server_objects_per_connection : bool := {'true' if per_conn else 'false'}.")
+    se = trees["session"]
+    init = body_text(find_func(find_class(se, "Session"), "__init__"))
+    out.append(f"Definition session_own_variables : bool := {'true' if 'self.variables = variables or SessionVariables(GlobalVariables())' in init else 'false'}.")
+    cn = trees["connection"]
+    cinit = body_text(find_func(find_class(cn, "Connection"), "__init__"))
+    ok = "self.prepared_stmts: Dict[int, PreparedStatement] = {}" in cinit and "self.prepared_stmt_seq = seq(self._MAX_PREPARED_STMT_ID)" in cinit
+    out.append(f"Definition connection_own_statements : bool := {'true' if ok else 'false'}.")
+    return out
+
+
+SECTIONS = [("stream", facts_stream), ("control", facts_control), ("packets", facts_packets), ("conn", facts_conn), ("shared", facts_shared)]
 
 
 IMPORTS = {
